@@ -76,6 +76,17 @@ pub trait NamingContext {
     ) -> String {
         if variant_rename.is_none() {
             if let Some(convention) = enum_rename_all {
+                if *convention == RenameRule::CamelCase {
+                    // RenameRule::apply_to_variant(CamelCase) cuts one *byte* off the name and
+                    // panics for a variant like `Émile`; lower-case the first character instead
+                    return match variant_name.chars().next() {
+                        Some(first) => first
+                            .to_lowercase()
+                            .chain(variant_name.chars().skip(1))
+                            .collect(),
+                        None => String::new(),
+                    };
+                }
                 return convention.apply_to_variant(variant_name);
             }
         }
